@@ -76,7 +76,7 @@ theorem Inv.stepO {st st' : St} (h : Inv w ρ oi ow c st) (he : Ext oi ow st.typ
     (hs : Types.size st.types ≤ Types.size st'.types)
     (hcache : st'.cache = st.cache) (hrm : st'.resourceMap = st.resourceMap) : Inv w ρ oi ow c st' := by
   have hb : bnd c st ≤ bnd c st' := by unfold bnd; omega
-  refine ⟨Nat.le_trans h.hc hs, ?_, ?_, ?_, ?_, ?_, ?_, ?_⟩
+  refine ⟨Nat.le_trans h.hc hs, ?_, ?_, ?_, ?_, ?_, ?_, ?_, by rw [hrm]; exact h.inj⟩
   · intro d v hl; rw [hcache] at hl
     exact fun g t ht => (h.defined d v hl g t ht).mono he (by omega)
   · intro f id hl; rw [hcache] at hl
@@ -111,7 +111,7 @@ theorem Inv.openI {st st0 : St} (h : Inv w ρ oi ow c st) (he : Ext [] [] st.typ
     Inv w ρ (st.types.interfaces.length :: oi) ow (c + 1) st0 := by
   have hc := h.hc
   have hb : bnd (c + 1) st0 = bnd c st := by unfold bnd; omega
-  refine ⟨by omega, ?_, ?_, ?_, ?_, ?_, ?_, ?_⟩
+  refine ⟨by omega, ?_, ?_, ?_, ?_, ?_, ?_, ?_, by rw [hrm]; exact h.inj⟩
   · intro d v hl; rw [hcache] at hl
     intro g t ht T' F he' hF
     exact h.defined d v hl g t ht T' F (Ext.skipI he.of_nil he' (Nat.le_refl _)) (by omega)
@@ -143,7 +143,7 @@ theorem Inv.openW {st st0 : St} (h : Inv w ρ oi ow c st) (he : Ext [] [] st.typ
     Inv w ρ oi (st.types.worlds.length :: ow) (c + 1) st0 := by
   have hc := h.hc
   have hb : bnd (c + 1) st0 = bnd c st := by unfold bnd; omega
-  refine ⟨by omega, ?_, ?_, ?_, ?_, ?_, ?_, ?_⟩
+  refine ⟨by omega, ?_, ?_, ?_, ?_, ?_, ?_, ?_, by rw [hrm]; exact h.inj⟩
   · intro d v hl; rw [hcache] at hl
     intro g t ht T' F he' hF
     exact h.defined d v hl g t ht T' F (Ext.skipW he.of_nil he' (Nat.le_refl _)) (by omega)
@@ -174,7 +174,7 @@ theorem Inv.close {oi' ow' : List Nat} {st : St} (h : Inv w ρ oi' ow' (c + 1) s
     (hi : ∀ i, i ∈ oi → i ∈ oi') (hw : ∀ i, i ∈ ow → i ∈ ow') : Inv w ρ oi ow c st := by
   have hc := h.hc
   have hb : bnd (c + 1) st ≤ bnd c st := by unfold bnd; omega
-  refine ⟨by omega, ?_, ?_, ?_, ?_, h.mod, ?_, h.rm⟩
+  refine ⟨by omega, ?_, ?_, ?_, ?_, h.mod, ?_, h.rm, h.inj⟩
   · intro d v hl g t ht
     exact ((h.defined d v hl g t ht).close hi hw).mono (Ext.refl _ _ _) (by omega)
   · intro f id hl g t ht
